@@ -113,6 +113,8 @@ func vAppendLM(L, E int) {
 	switch res {
 	case success:
 		vReach("success")
+		// accepting means the logs agree at prevLogIndex (wherever this node still has that position)
+		vAssert(vImp(vAnd(req.prevLogIndex > c.base, req.prevLogIndex > r.snaps.index), vAnd(req.prevLogIndex <= c.last0, vTermAt(a, c.base, req.prevLogIndex) == req.prevLogTerm)), "A1-success-implies-prev-entry-matched")
 		// every carried entry above the snapshot index is now in the log, byte for byte
 		for _, e := range c.ents {
 			if e.index > r.snaps.index {
